@@ -238,3 +238,76 @@ func compositionAcrossFiles(c *engine.Ctx, fails *int) []*core.PResult {
 	}
 	return res
 }
+
+// symlinkLayouts (C10, "file resolution relative to the referring document, symlinks"): the referenced document
+// is reached through a symlinked directory or is itself a symlink, and contains a relative reference that climbs
+// out with `..`; that reference is relative to the document's REAL location.  A decoy with other content sits
+// where the unresolved path would lead.
+func symlinkLayouts(c *engine.Ctx, fails *int) []*core.PResult {
+	country := func(n int) sgen.M {
+		return sgen.M{"$schema": "x", "$id": fmt.Sprintf("urn:types%d", n), "$defs": sgen.M{"Country": sgen.M{"type": "string", "minLength": n, "maxLength": n + 1}}}
+	}
+	address := func(ref string) sgen.M {
+		return sgen.M{"$id": "urn:address", "title": "Address", "type": "object", "properties": sgen.M{"country": sgen.M{"$ref": ref}}, "required": []any{"country"}}
+	}
+	inline := sgen.M{"type": "object", "properties": sgen.M{"shipTo": sgen.M{"type": "object", "properties": sgen.M{"country": sgen.M{"type": "string", "minLength": 2, "maxLength": 3}}, "required": []any{"country"}}}}
+	docs := []any{M{"shipTo": M{"country": "FR"}}, M{"shipTo": M{"country": "FRA"}}, M{"shipTo": M{"country": "France"}}, M{"shipTo": M{"country": "F"}}, M{"shipTo": M{}}, M{}}
+	type layout struct {
+		name     string
+		ref      string
+		files    map[string][]byte
+		symlinks map[string]string
+	}
+	layouts := []layout{
+		{"symlinked-directory", "vendor/address.json",
+			map[string][]byte{"shared/address.json": core.MustJSON(address("../base/types.json#/$defs/Country")), "base/types.json": core.MustJSON(country(2)), "main/base/types.json": core.MustJSON(country(6))},
+			map[string]string{"main/vendor": "../shared"}},
+		{"symlinked-file", "address.json",
+			map[string][]byte{"shared/address.json": core.MustJSON(address("../base/types.json#/$defs/Country")), "base/types.json": core.MustJSON(country(2)), "main/../decoy/types.json": core.MustJSON(country(6))},
+			map[string]string{"main/address.json": "../shared/address.json"}},
+		{"symlinked-directory-nested", "links/v/address.json",
+			map[string][]byte{"deep/er/shared/address.json": core.MustJSON(address("../../../base/types.json#/$defs/Country")), "base/types.json": core.MustJSON(country(2)), "main/base/types.json": core.MustJSON(country(6)), "main/links/base/types.json": core.MustJSON(country(6))},
+			map[string]string{"main/links/v": "../../deep/er/shared"}},
+		{"plain-directory (control)", "../shared/address.json",
+			map[string][]byte{"shared/address.json": core.MustJSON(address("../base/types.json#/$defs/Country")), "base/types.json": core.MustJSON(country(2))}, nil},
+	}
+	var pcs []*core.PCase
+	for _, l := range layouts {
+		in := baseCase("c10-symlink-inline", sgen.DeepCopy(inline).(sgen.M), docs, l.name)
+		main := sgen.M{"$id": "urn:main", "type": "object", "properties": sgen.M{"shipTo": sgen.M{"$ref": l.ref}}}
+		rf := baseCase("c10-symlink-ref", main, docs, l.name)
+		cfg := core.DefaultCfg()
+		cfg.RootType = "Root"
+		cfg.FileName = "main/schema.json"
+		rf.Cfg = cfg
+		rf.SchemaID = "urn:main"
+		rf.Files = l.files
+		rf.Symlinks = l.symlinks
+		pcs = append(pcs, in, rf)
+	}
+	res := runCases(c, pcs)
+	for i := 0; i+1 < len(res); i += 2 {
+		in, rf := res[i], res[i+1]
+		name := rf.Case.Labels[0]
+		if in.RunsJ == nil {
+			continue
+		}
+		if rf.RunsJ == nil {
+			*fails++
+			c.Fail("oracle", "a reference through a symbolic link ("+name+") does not generate although the inline form does: "+rf.Real.ErrMsg+rf.Real.Panic+clip(rf.CompileErr, 200), replayOf(rf, -1, M{"files": filesAsStrings(rf.Case.Files), "symlinks": rf.Case.Symlinks}), false)
+			continue
+		}
+		for d := range in.DocJSON {
+			a, b := in.RunsJ[d], rf.RunsJ[d]
+			c.Eval(fmt.Sprintf("symlink|%s|%s/%s|%d", name, a.Kind, b.Kind, d))
+			if a.Kind != b.Kind || (a.Kind == "ok" && a.Canon != b.Canon) {
+				*fails++
+				if *fails <= 3 {
+					c.Fail("oracle", fmt.Sprintf("a reference inside a document reached through a symbolic link (%s) is not resolved relative to the document's real location: inline %s %s, reference form %s %s", name, a.Kind, clip(a.Canon+a.Msg, 120), b.Kind, clip(b.Canon+b.Msg, 120)),
+						replayOf(rf, d, M{"files": filesAsStrings(rf.Case.Files), "symlinks": rf.Case.Symlinks}), false)
+				}
+			}
+		}
+	}
+	return res
+}
